@@ -78,6 +78,7 @@ func runManuf(c ManufCase) (res ev.Result) {
 	if !c.Request {
 		v.SendingData = backing[:len(v.SendingData)]
 	}
+	ev.Try(func() { _ = append(v.SysEx(), 0xEE, 0xEE, 0xEE, 0xEE) }) // the caller may append to what it got
 	if p := ev.Try(func() { got = v.SysEx() }); p != "" {
 		res.Violation = "SysEx() " + p
 		return
